@@ -367,6 +367,33 @@ def c14_random_events(n: int, sd: int) -> List[Dict[str, Any]]:
             _random.seed(sd * 1000003 + k)
             R.add('deal.random', {'seed': k},
                   lambda: {'out': project_hands(Hands.generate_random_hands())})
+        # two dealers at work at the same time (two tables, two threads): a
+        # second deal is made in the middle of the first one, at each of the
+        # points where the dealer builds a hand; the first deal must not notice
+        import builtins
+        import bridge_env.hands as hm
+        for k in range(n):
+            for at in (1, 2, 3, 4):
+                state = {'calls': 0, 'busy': False}
+
+                def hooked(*a):
+                    state['calls'] += 1
+                    if state['calls'] == at and not state['busy']:
+                        state['busy'] = True
+                        Hands.generate_random_hands()
+                    return builtins.set(*a)
+                _random.seed(sd * 7919 + k)
+                hm.set = hooked
+                try:
+                    R.add('deal.random', {'seed': k, 'interleaved_at': at},
+                          lambda: {'out': project_hands(Hands.generate_random_hands())})
+                finally:
+                    try:
+                        del hm.set
+                    except AttributeError:
+                        pass
+            if k >= 20:
+                break
     finally:
         _random.setstate(st)
     return R.evs
